@@ -565,5 +565,43 @@ def r15_15(ctx):
     delegate(ctx, c06.r06_13, lambda c: True)
 
 
+BOOL_IS_INT_EXEMPT = {
+    "run_server": "the protocol version: True == 1, the request is understood and answered as version 1",
+}
+
+
+def r15_16(ctx):
+    """R15.16 a JSON boolean is not a number: in Python `isinstance(True, int)` holds, so wherever the server tests a request
+    value with `isinstance(v, int)` (alone or in a tuple of types) the boolean was excluded before - a guard fact
+    `isinstance(v, bool)` false at the test, or the test is `type(v) is int`. `{"set": {"H": true}}` set a hex option to 0x1
+    without an error (fixed defect 5.59)."""
+    repo = ctx.repo
+    n = 0
+    for f in repo.funcs_in(KS):
+        tests = [c for c in ast.walk(f.node) if isinstance(c, ast.Call) and isinstance(c.func, ast.Name) and c.func.id == "isinstance" and len(c.args) == 2
+                 and repo.enclosing_func(c) is f and any(isinstance(x, ast.Name) and x.id == "int" for x in ast.walk(c.args[1]))]
+        if not tests:
+            continue
+        ctx.analysed(f.qual)
+        fl = Flow(f.node, resolver=Resolver(f.node)).run()
+        for c in tests:
+            n += 1
+            v = ast.unparse(c.args[0])
+            construct = f"{f.short}/`{ast.unparse(c)[:50]}` does not take a JSON boolean for a number"
+            if f.name in BOOL_IS_INT_EXEMPT:
+                ctx.ok(construct + " (exempt)", f.loc(c), nontrivial=False, reason=BOOL_IS_INT_EXEMPT[f.name])
+                continue
+            gs = fl.guards_at(c) or set()
+            same_test = repo.parent(c)
+            # `isinstance(v, bool) or not isinstance(v, int)` / `not isinstance(v, bool) and isinstance(v, int)` in one expression
+            inline = isinstance(same_test, (ast.BoolOp, ast.UnaryOp)) and any(
+                isinstance(x, ast.Call) and ast.unparse(x) == f"isinstance({v}, bool)" for x in ast.walk(repo.enclosing_stmt(c)) if x is not c)
+            ok = any(k == f"isinstance({v}, bool)" and not pol for k, pol in gs) or inline
+            (ctx.ok(construct, f.loc(c)) if ok else
+             ctx.bad(construct, f"`true` / `false` pass the test as 1 / 0: a value of the wrong JSON type for `{v}` is applied instead of being reported", f.loc(c)))
+    if not n:
+        raise AnchorError("kconfserver.core: no isinstance(.., int) test on a request value")
+
+
 def rules():
-    return [("R15.15", r15_15, 3), ("R15.14", r15_14, 2), ("R15.13", r15_13, 1), ("R15.12", r15_12, 8), ("R15.11", r15_11, 1), ("R15.10", r15_10, 2), ("R15.9", r15_9, 4), ("R15.7", r15_7, 1), ("R15.1", r15_1, 4), ("R15.2", r15_2, 2), ("R15.3", r15_3, 3), ("R15.4", r15_4, 2), ("R15.5", r15_5, 3), ("R15.6", r15_6, 2), ("R15.8", r15_8, 6)]
+    return [("R15.16", r15_16, 2), ("R15.15", r15_15, 3), ("R15.14", r15_14, 2), ("R15.13", r15_13, 1), ("R15.12", r15_12, 8), ("R15.11", r15_11, 1), ("R15.10", r15_10, 2), ("R15.9", r15_9, 4), ("R15.7", r15_7, 1), ("R15.1", r15_1, 4), ("R15.2", r15_2, 2), ("R15.3", r15_3, 3), ("R15.4", r15_4, 2), ("R15.5", r15_5, 3), ("R15.6", r15_6, 2), ("R15.8", r15_8, 6)]
